@@ -25,10 +25,11 @@ func TestC01(t *testing.T) {
 		"generated rule sets respect the documented memo contract (DESIGN 2.5 R1-R4): pure methods or announced changes, no aliasing spellings of written locations",
 		"the engine's map iteration order cannot be seeded: every case is executed 2-3 times (24 times once a failure was seen)")
 	defer col.Flush()
-	cfg := rsGenCfg{Rules: fullRuleCfg(), GRB: true, Vary: true, JSONFront: true, Rejected: true}
+	cfg := rsGenCfg{Rules: fullRuleCfg(), GRB: true, Vary: true, JSONFront: true, Rejected: true, RemovedSibling: true}
 	check(t, 0, budget(6000, 80000), func(rt *rapid.T) {
 		c, rs := genRSCase(rt, cfg)
 		maybeFailingConditions(rt, c, rs)
+		maybeBareCondition(rt, c, rs)
 		maybeUsedBefore(rt, c, rs, cfg.Rules.State)
 		rep, v := runValidated(rt, c, "C01")
 		nt := rep.FlipsTF > 0
